@@ -105,7 +105,9 @@ C03Scn(p) ==
 ---------------------------------------------------------------------------
 (* C04: callback query shapes and replays *)
 QShapes == {"ok", "reordered", "dupGoodFirst", "dupBadFirst", "caseKeys", "noState", "noCode", "emptyState", "trailingSpace",
-            "prefixState", "upperState", "empty", "noQuery", "pctzz", "semicolon", "fragment", "encodedKeys"}
+            "prefixState", "upperState", "empty", "noQuery", "pctzz", "semicolon", "fragment", "encodedKeys",
+            \* the provider's authorization ERROR response (RFC 6749 4.1.2.1): no code, an error, optionally a description
+            "errorDenied", "errorRetriable", "errorWithDescription", "errorNoState"}
 C04Space == [shape : QShapes, store : {"memory", "redis"}, replay : {"same", "otherSession", "noCookie"}, port : {""}]
             \cup [shape : {"ok", "reordered"}, store : {"memory", "redis"}, replay : {"same"}, port : {"443"}]
 
